@@ -67,6 +67,66 @@ type c06Cfg struct {
 	// tcpConn.Read marked the connection established BEFORE parsing the lazily read response, so after
 	// one timed-out Read the next Read handed the raw response frame to the application as target data.)
 	FirstReadTimesOut bool
+	// TgtEmptyReads: the NUMBER of empty reads - Read returning (0, nil), which the io.Reader contract
+	// allows ("discouraged", not forbidden) and record-oriented / TLS / buffered connections from a
+	// pluggable Outbound do - that the outbound connection hands the server over the whole life of
+	// one relay direction, never two in a row: one empty read before each of N one-byte chunks the
+	// target sends (and one before the Read that reports the target's close). The execution chooses N
+	// from this list (cost-free choice). Judged by the property's own clauses: the application
+	// receives the whole of what the target wrote before closing, the logger's counts match. (Added
+	// after the independently seeded change C06-11: copyBufferLog gained a bufio-style "100 empty
+	// reads" guard whose counter was never reset by a successful read, so the relay was torn down
+	// with io.ErrNoProgress at the 100th empty read of the connection, mid-stream.)
+	TgtEmptyReads []int
+}
+
+// c06EmptyReadsOutbound hands the server outbound connections that return (0, nil) once before
+// every Read that waits for the target (c06Cfg.TgtEmptyReads); count = empty reads handed out.
+type c06EmptyReadsOutbound struct {
+	Outbound
+	count *int
+}
+
+func (o c06EmptyReadsOutbound) TCP(reqAddr string) (net.Conn, error) {
+	c, err := o.Outbound.TCP(reqAddr)
+	if err != nil {
+		return c, err
+	}
+	return &c06EmptyReadsConn{Conn: c, count: o.count}, nil
+}
+
+// c06EmptyReadsConn: every second Read with a non-empty buffer returns (0, nil) without waiting;
+// the Reads in between hand over at most one byte (a short read), so that the number of empty reads
+// of an execution is fixed by the number of bytes the target sends and not by the schedule. Nothing
+// else differs from the connection underneath.
+type c06EmptyReadsConn struct {
+	net.Conn
+	count *int
+	empty bool // the previous Read was the empty one
+}
+
+func (c *c06EmptyReadsConn) Read(b []byte) (int, error) {
+	if len(b) == 0 {
+		return c.Conn.Read(b)
+	}
+	if !c.empty {
+		c.empty = true
+		*c.count++
+		return 0, nil
+	}
+	c.empty = false
+	return c.Conn.Read(b[:1])
+}
+
+// c06OneByteChunks returns n one-byte chunks (a pattern in which a lost, repeated or reordered byte
+// shows).
+func c06OneByteChunks(n int) []string {
+	const abc = "0123456789abcdefghijklmnopqrstuvwxyzABCDEFGHIJKLMNOPQRSTUVWXYZ+"
+	out := make([]string, n)
+	for i := range out {
+		out[i] = abc[i%len(abc) : i%len(abc)+1]
+	}
+	return out
 }
 
 // c06GatedOutbound: an outbound whose dial takes a while (c06Cfg.FirstReadTimesOut): Outbound.TCP
@@ -141,9 +201,25 @@ func c06Run(e *vsched.Exec, c c06Cfg) {
 		c.DialErr = strings.Repeat("e", n)
 		e.Logf("dial error message length %d", n)
 	}
+	emptyReads := 0
+	if c.TgtEmptyReads != nil {
+		// how many empty reads the server's outbound connection returns during this connection
+		n := c.TgtEmptyReads[e.Choose(len(c.TgtEmptyReads), vsched.KFree, "target-empty-reads")]
+		c.TgtSend = c06OneByteChunks(n)
+		e.Logf("target sends %d one-byte chunks, one empty read (0, nil) before each", n)
+	}
 	opts := rigOpts{Traffic: c.Logger}
 	if c.DecliningHook {
 		opts.Mutate = func(cfg *Config) { cfg.RequestHook = c06DecliningHook{e} }
+	}
+	if c.TgtEmptyReads != nil {
+		prev := opts.Mutate
+		opts.Mutate = func(cfg *Config) {
+			if prev != nil {
+				prev(cfg)
+			}
+			cfg.Outbound = c06EmptyReadsOutbound{Outbound: cfg.Outbound, count: &emptyReads}
+		}
 	}
 	var eofOut *c06EOFOutbound
 	if c.TgtEOFWithData {
@@ -426,6 +502,9 @@ func c06Run(e *vsched.Exec, c c06Cfg) {
 			}
 		}
 	}
+	if c.TgtEmptyReads != nil {
+		e.Logf("empty reads handed to the server by the outbound connection: %d", emptyReads)
+	}
 	e.Logf("%s app<-%q tgt<-%q tcpErr=%v appReadErr=%v tgtReadErr=%v wErr=%v %s", c.Name, appGot.String(), tgtGot.String(), tcpErr, appReadErr, tgtReadErr, appWriteErr, r.eventsString())
 	_ = cl.Close()
 	for _, pc := range f.pcs {
@@ -523,6 +602,28 @@ func c06Scenarios(thorough bool) []*explore.Scenario {
 			)
 		}
 	}
+	// the number of empty reads (0, nil) of the outbound connection over the life of one relay
+	// direction, never two in a row: one before each of N one-byte chunks of the target. Boundary
+	// sweep over N (quick: a handful around the powers of two and the hundreds, thorough: every N up
+	// to 300) on the default schedule, logger present and absent (fast path), fast-open, with and
+	// without client data flowing the other way; N=3 also under schedule deviations. Added after the
+	// independently seeded change C06-11 (copyBufferLog counted empty reads over the whole connection
+	// without resetting after a successful read and gave up with io.ErrNoProgress at the 100th).
+	ers := []int{1, 2, 31, 32, 33, 63, 64, 65, 98, 99, 100, 101, 127, 128, 129, 199, 200, 201, 255, 256, 257, 299, 300}
+	if thorough {
+		ers = nil
+		for n := 1; n <= 300; n++ {
+			ers = append(ers, n)
+		}
+	}
+	for _, lg := range []bool{true, false} {
+		cfgs = append(cfgs, c06Cfg{Name: fmt.Sprintf("t2c/fastopen=false/logger=%v/target-empty-reads-sweep", lg), TgtClose: "after-writes", AppClose: "never", Logger: lg, Whole: "t2c", TgtEmptyReads: ers})
+	}
+	cfgs = append(cfgs,
+		c06Cfg{Name: "t2c/fastopen=true/logger=true/target-empty-reads-sweep", TgtClose: "after-writes", AppClose: "never", FastOpen: true, Logger: true, Whole: "t2c", TgtEmptyReads: ers},
+		c06Cfg{Name: "both-tgtcloses/fastopen=false/logger=true/target-empty-reads-sweep", AppSend: []string{"abc"}, TgtClose: "after-reading-all", AppClose: "never", Logger: true, Whole: "both", TgtEmptyReads: ers},
+		c06Cfg{Name: "t2c/fastopen=false/logger=true/target-empty-reads=3", TgtClose: "after-writes", AppClose: "never", Logger: true, Whole: "t2c", TgtEmptyReads: []int{3}},
+	)
 	for _, fo := range []bool{false, true} {
 		for _, lg := range []bool{false, true} {
 			sfx := fmt.Sprintf("/fastopen=%v/logger=%v", fo, lg)
@@ -600,7 +701,7 @@ func c06Scenarios(thorough bool) []*explore.Scenario {
 		// sized with explore.Probe: ~270 alternatives per default schedule (window scenarios ~1200)
 		q := explore.Bounds{P: 1, E: 1}
 		t := explore.Bounds{P: 2, E: 1}
-		core := !c.FastOpen && c.Logger && !c.TgtEOFWithData && (strings.HasPrefix(c.Name, "c2t/") || strings.HasPrefix(c.Name, "t2c/") || strings.HasPrefix(c.Name, "race-close/") || strings.HasPrefix(c.Name, "veto2/"))
+		core := !c.FastOpen && c.Logger && !c.TgtEOFWithData && c.TgtEmptyReads == nil && (strings.HasPrefix(c.Name, "c2t/") || strings.HasPrefix(c.Name, "t2c/") || strings.HasPrefix(c.Name, "race-close/") || strings.HasPrefix(c.Name, "veto2/"))
 		if core {
 			q = explore.Bounds{P: 2, E: 1}
 			t = explore.Bounds{P: 3, E: 1, MaxExec: 3000000}
@@ -610,6 +711,10 @@ func c06Scenarios(thorough bool) []*explore.Scenario {
 		}
 		if c.AddrLens != nil || c.DialErrLens != nil {
 			q, t = explore.Bounds{P: 0}, explore.Bounds{P: 1}
+		}
+		if len(c.TgtEmptyReads) > 1 {
+			// the sweep over the number of empty reads: every N on the default schedule
+			q, t = explore.Bounds{P: 0}, explore.Bounds{P: 0}
 		}
 		if strings.Contains(c.Name, "40k") {
 			q, t = explore.Bounds{P: 1}, explore.Bounds{P: 1, E: 1}
